@@ -33,6 +33,9 @@ if "comparators" in sections or len(sys.argv) == 1:
 if "entry" in sections or len(sys.argv) == 1:
     from rules import c05
     tab["entry"] = c05.entry_table(prog)
+if "mergepred" in sections or len(sys.argv) == 1:
+    from rules import c08
+    tab["mergepred"] = c08.pred_table(prog)
 if "cursor" in sections or len(sys.argv) == 1:
     from rules import c05
     tab["cursor"] = c05.cursor_table(prog)
